@@ -240,7 +240,7 @@ impl Property for C01 {
         "C01"
     }
     fn rule(&self) -> String {
-        "pairs of replica states built by 0-10 remote inserts each (plus shared entries) over 3 authors, keys from {00,01,61,62,FE,FF}^0..3, 4 timestamps (ties, deletion markers newer/older than the peer's entries, empty key, 0xFF keys), both initiators, memory and file stores, (split_factor, max_set_size) from {2,3,4,5}x{0,1,2,4}; a complete session, then a second one; non-trivial = the two starting sets differ and the session took at least 3 messages; distinct = distinct operation lists".into()
+        "pairs of replica states built by 0-10 remote inserts each (plus shared entries) over 3 authors, keys from {00,01,61,62,FE,FF}^0..3, 4 timestamps (ties, deletion markers newer/older than the peer's entries, empty key, 0xFF keys; in a twelfth of the cases all keys behind a 255-byte prefix), both initiators, memory and file stores, (split_factor, max_set_size) from {2,3,4,5}x{0,1,2,4}; a complete session, then a second one; non-trivial = the two starting sets differ and the session took at least 3 messages; distinct = distinct operation lists".into()
     }
     fn corpus(&self) -> Vec<(String, Vec<Op>)> {
         let p = |side: u8, a: usize, k: &[u8], c: Option<usize>, ts: u64| Op::Put { side, a, key: k.to_vec(), c, ts };
@@ -279,6 +279,14 @@ impl Property for C01 {
                     c: if rng.chance(1, 4) { None } else { Some(rng.below(3)) },
                     ts: *rng.pick(&crate::c02::TIMES),
                 });
+            }
+        }
+        if rng.chance(1, 12) {
+            // long keys: every key behind a common 255-byte prefix
+            for o in puts.iter_mut() {
+                if let Op::Put { key, .. } = o {
+                    *key = crate::c02::long_key(key);
+                }
             }
         }
         rng.shuffle(&mut puts);
